@@ -193,4 +193,5 @@ Definition corr_parts (ax : option nat) (yt yp : tensor F) : tensor F * tensor F
   (covariance ax yt yp, tzip mul (variance ax yt) (variance ax yp)).
 End M.
 
+Arguments mat F : clear implicits. Arguments cmode F : clear implicits.
 Arguments mkMode {F}. Arguments mA {F}. Arguments mB {F}. Arguments nA {F}. Arguments nB {F}.
